@@ -290,7 +290,7 @@ static void recursive_deep()
     int partial = pmc_choose(2, 0);    // 0: unlock N-1 levels before the probe, 1: unlock exactly one level before the probe
     Shared s;
     RM m;
-    pmc_watch(&m, sizeof m, "recursive_mutex");
+    // (not watched: an input enumeration under the default schedule - 131073 nested locks would otherwise be as many choice points)
     static int phase, probe_result[2];
     phase = 0;
     probe_result[0] = probe_result[1] = -1;
